@@ -175,8 +175,138 @@ package scanner
 //@   requires s != nil && paramsOK(s)
 //@   modifies nothing
 
+// ---------------------------------------------------------------------------
+// Keywords (C13). lit(f): the keyword prefix that has been read when letter-state f is about to run.
+// The keyword list below is the specification (JSight API 0.3); response codes are [1-5][0-9][0-9].
+//@ fn lit(f stepFunc) string :=
+//@     ite(f == stateB, "B",
+//@     ite(f == stateBa, "Ba",
+//@     ite(f == stateBas, "Bas",
+//@     ite(f == stateBase, "Base",
+//@     ite(f == stateBaseU, "BaseU",
+//@     ite(f == stateBaseUr, "BaseUr",
+//@     ite(f == stateBo, "Bo",
+//@     ite(f == stateBod, "Bod",
+//@     ite(f == stateD, "D",
+//@     ite(f == stateDE, "DE",
+//@     ite(f == stateDEL, "DEL",
+//@     ite(f == stateDELE, "DELE",
+//@     ite(f == stateDELET, "DELET",
+//@     ite(f == stateDe, "De",
+//@     ite(f == stateDes, "Des",
+//@     ite(f == stateDesc, "Desc",
+//@     ite(f == stateDescr, "Descr",
+//@     ite(f == stateDescri, "Descri",
+//@     ite(f == stateDescrip, "Descrip",
+//@     ite(f == stateDescript, "Descript",
+//@     ite(f == stateDescripti, "Descripti",
+//@     ite(f == stateDescriptio, "Descriptio",
+//@     ite(f == stateE, "E",
+//@     ite(f == stateEN, "EN",
+//@     ite(f == stateENU, "ENU",
+//@     ite(f == stateG, "G",
+//@     ite(f == stateGE, "GE",
+//@     ite(f == stateH, "H",
+//@     ite(f == stateHe, "He",
+//@     ite(f == stateHea, "Hea",
+//@     ite(f == stateHead, "Head",
+//@     ite(f == stateHeade, "Heade",
+//@     ite(f == stateHeader, "Header",
+//@     ite(f == stateI, "I",
+//@     ite(f == stateIN, "IN",
+//@     ite(f == stateINC, "INC",
+//@     ite(f == stateINCL, "INCL",
+//@     ite(f == stateINCLU, "INCLU",
+//@     ite(f == stateINCLUD, "INCLUD",
+//@     ite(f == stateINF, "INF",
+//@     ite(f == stateJ, "J",
+//@     ite(f == stateJS, "JS",
+//@     ite(f == stateJSI, "JSI",
+//@     ite(f == stateJSIG, "JSIG",
+//@     ite(f == stateJSIGH, "JSIGH",
+//@     ite(f == stateM, "M",
+//@     ite(f == stateMA, "MA",
+//@     ite(f == stateMAC, "MAC",
+//@     ite(f == stateMACR, "MACR",
+//@     ite(f == stateMe, "Me",
+//@     ite(f == stateMet, "Met",
+//@     ite(f == stateMeth, "Meth",
+//@     ite(f == stateMetho, "Metho",
+//@     ite(f == stateO, "O",
+//@     ite(f == stateOp, "Op",
+//@     ite(f == stateOpe, "Ope",
+//@     ite(f == stateOper, "Oper",
+//@     ite(f == stateOpera, "Opera",
+//@     ite(f == stateOperat, "Operat",
+//@     ite(f == stateOperati, "Operati",
+//@     ite(f == stateOperatio, "Operatio",
+//@     ite(f == stateOperation, "Operation",
+//@     ite(f == stateOperationI, "OperationI",
+//@     ite(f == stateP, "P",
+//@     ite(f == statePA, "PA",
+//@     ite(f == statePAS, "PAS",
+//@     ite(f == statePAST, "PAST",
+//@     ite(f == statePAT, "PAT",
+//@     ite(f == statePATC, "PATC",
+//@     ite(f == statePO, "PO",
+//@     ite(f == statePOS, "POS",
+//@     ite(f == statePU, "PU",
+//@     ite(f == statePa, "Pa",
+//@     ite(f == statePar, "Par",
+//@     ite(f == statePara, "Para",
+//@     ite(f == stateParam, "Param",
+//@     ite(f == statePat, "Pat",
+//@     ite(f == statePr, "Pr",
+//@     ite(f == statePro, "Pro",
+//@     ite(f == stateProt, "Prot",
+//@     ite(f == stateProto, "Proto",
+//@     ite(f == stateProtoc, "Protoc",
+//@     ite(f == stateProtoco, "Protoco",
+//@     ite(f == stateQ, "Q",
+//@     ite(f == stateQu, "Qu",
+//@     ite(f == stateQue, "Que",
+//@     ite(f == stateQuer, "Quer",
+//@     ite(f == stateR, "R",
+//@     ite(f == stateRe, "Re",
+//@     ite(f == stateReq, "Req",
+//@     ite(f == stateRequ, "Requ",
+//@     ite(f == stateReque, "Reque",
+//@     ite(f == stateReques, "Reques",
+//@     ite(f == stateRes, "Res",
+//@     ite(f == stateResu, "Resu",
+//@     ite(f == stateResul, "Resul",
+//@     ite(f == stateS, "S",
+//@     ite(f == stateSe, "SE",
+//@     ite(f == stateSer, "SER",
+//@     ite(f == stateServ, "SERV",
+//@     ite(f == stateServe, "SERVE",
+//@     ite(f == stateT, "T",
+//@     ite(f == stateTA, "TA",
+//@     ite(f == stateTa, "Ta",
+//@     ite(f == stateTag, "Tag",
+//@     ite(f == stateTi, "Ti",
+//@     ite(f == stateTit, "Tit",
+//@     ite(f == stateTitl, "Titl",
+//@     ite(f == stateTy, "TY",
+//@     ite(f == stateTyp, "TYP",
+//@     ite(f == stateU, "U",
+//@     ite(f == stateUR, "UR",
+//@     ite(f == stateV, "V",
+//@     ite(f == stateVe, "Ve",
+//@     ite(f == stateVer, "Ver",
+//@     ite(f == stateVers, "Vers",
+//@     ite(f == stateVersi, "Versi",
+//@     ite(f == stateVersio, "Versio",
+//@     ""))))))))))))))))))))))))))))))))))))))))))))))))))))))))))))))))))))))))))))))))))))))))))))))))))))))))))))))))))))))
+//@ pred isKw(w string) := in(w, "Body", "BaseUrl", "DELETE", "Description", "ENUM", "GET", "Headers", "INFO", "INCLUDE", "JSIGHT", "MACRO", "Method", "OperationId", "POST", "PUT", "PATCH", "PASTE", "Path", "Params", "Protocol", "Query", "Request", "Result", "SERVER", "Title", "TYPE", "TAG", "Tags", "URL", "Version")
+//@ pred isKwPrefix(w string) := len(w) >= 1 && (prefixof(w, "Body") || prefixof(w, "BaseUrl") || prefixof(w, "DELETE") || prefixof(w, "Description") || prefixof(w, "ENUM") || prefixof(w, "GET") || prefixof(w, "Headers") || prefixof(w, "INFO") || prefixof(w, "INCLUDE") || prefixof(w, "JSIGHT") || prefixof(w, "MACRO") || prefixof(w, "Method") || prefixof(w, "OperationId") || prefixof(w, "POST") || prefixof(w, "PUT") || prefixof(w, "PATCH") || prefixof(w, "PASTE") || prefixof(w, "Path") || prefixof(w, "Params") || prefixof(w, "Protocol") || prefixof(w, "Query") || prefixof(w, "Request") || prefixof(w, "Result") || prefixof(w, "SERVER") || prefixof(w, "Title") || prefixof(w, "TYPE") || prefixof(w, "TAG") || prefixof(w, "Tags") || prefixof(w, "URL") || prefixof(w, "Version"))
+//@ pred isLetterState(f stepFunc) := lit(f) != ""
+//@ pred isSeparator(c byte) := in(c, ' ', '\t', '\n', '\r', 0, '#', '/')
+//@ pred isDigit(c byte) := '0' <= c && c <= '9'
+//@ pred startsDirective(f stepFunc) := in(f, stateRoot, stateExpectKeyword)
+
 //@ functype stepFunc(s, c)
-//@   property C01,C12
+//@   property C01,C12,C13
 //@   requires s != nil && s.step == self && fileOK(s) && paramsOK(s)
 //@   requires s.curIndex <= s.dataSize
 //@   requires imp(s.curIndex < s.dataSize, c == s.data.data[s.curIndex] && c != 0) && imp(s.curIndex == s.dataSize, c == 0)
@@ -190,6 +320,21 @@ package scanner
 //@   ensures imp(result == nil && s.curIndex < s.dataSize, scanOK(s, s.step, s.curIndex + 1))
 //@   ensures imp(result == nil && s.curIndex == s.dataSize, s.gOpen == 0 || s.gOpenAt <= s.dataSize)
 //@   ensures 0 <= s.gFree && s.gFree >= old(s.gFree)
+//@   ensures[C13,@kw-step] imp(isLetterState(self) && result == nil,
+//@       (isLetterState(s.step) && lit(s.step) == lit(self) + char(c) && s.gOpen == 1)
+//@       || (s.step == stateParameterOrAnnotation && isKw(lit(self) + char(c)) && s.gOpen == 0 && s.gFree == old(s.curIndex) + 1))
+//@   ensures[C13,@kw-complete] imp(isLetterState(self) && isKwPrefix(lit(self) + char(c)), result == nil)
+//@   ensures[C13,@kw-error-at] imp((isLetterState(self) || startsDirective(self) || in(self, stateResponseKeywordStarted, stateResponseKeywordSecond))
+//@       && result != nil, result.Index == old(s.curIndex))
+//@   ensures[C13,@code-2] imp(self == stateResponseKeywordStarted, iff(result == nil, isDigit(c))
+//@       && imp(result == nil, s.step == stateResponseKeywordSecond && s.gOpen == 1))
+//@   ensures[C13,@code-3] imp(self == stateResponseKeywordSecond, iff(result == nil, isDigit(c))
+//@       && imp(result == nil, s.step == stateParameterOrAnnotation && s.gOpen == 0 && s.gFree == old(s.curIndex) + 1))
+//@   ensures[C13,@kw-start] imp(startsDirective(self) && result == nil && s.gOpen == 1, s.gOpenAt == old(s.curIndex)
+//@       && ((isLetterState(s.step) && lit(s.step) == char(c)) || (s.step == stateResponseKeywordStarted && '1' <= c && c <= '5')))
+//@   ensures[C13,@kw-start-complete] imp(startsDirective(self) && (isKwPrefix(char(c)) || ('1' <= c && c <= '5')), result == nil && s.gOpen == 1)
+//@   ensures[C13,@separator] imp(self == stateParameterOrAnnotation,
+//@       iff(result == nil, isSeparator(c)) && imp(result != nil, result.Index == old(s.curIndex)))
 //@   ensures s.finds.arr != s.stack.arr
 //@   ensures queueA(s)
 //@   ensures queueB(s)
@@ -214,6 +359,12 @@ package scanner
 //@   ensures result.type_ == old(s.finds[0].type_) && result.position == old(s.finds[0].position)
 //@   ensures len(s.finds) == old(len(s.finds)) - 1 && s.finds.arr == old(s.finds.arr)
 //@   ensures s.finds.off == old(s.finds.off)
+// the two instances of the shift that callers need most, stated explicitly (no quantifier instantiation needed)
+//@   ensures imp(len(s.finds) > 0,
+//@       at(s.finds, s.finds.off + len(s.finds) - 1).type_ == old(at(s.finds, s.finds.off + len(s.finds) - 1).type_)
+//@       && at(s.finds, s.finds.off + len(s.finds) - 1).position == old(at(s.finds, s.finds.off + len(s.finds) - 1).position))
+//@   ensures imp(len(s.finds) > 0, at(s.finds, s.finds.off).type_ == old(at(s.finds, s.finds.off + 1).type_)
+//@       && at(s.finds, s.finds.off).position == old(at(s.finds, s.finds.off + 1).position))
 //@   ensures forallp(k, at(s.finds, k).type_, imp(s.finds.off <= k && k < s.finds.off + len(s.finds),
 //@       at(s.finds, k).type_ == old(at(s.finds, k+1).type_) && at(s.finds, k).position == old(at(s.finds, k+1).position)))
 
